@@ -1,5 +1,5 @@
 From NV Require Import Common.Py Common.Trans Spec.TimeSpec Gen.BintimeGen Model.Calendar Model.Convert
-  Model.DateTimeFields Corr.C14Spec.
+  Model.DateTimeFields Model.Text Corr.C14Spec.
 Open Scope Z_scope.
 
 Definition f9_eqb (a b : fields9) : bool :=
@@ -15,14 +15,16 @@ Definition c14_model_ok (c : c14case) : bool :=
   | TdFields t days secs us fs ys =>
       (days =? td_days t) && (secs =? td_seconds t) && (us =? td_microseconds t)
       && (fs =? td_femtoseconds t) && (ys =? td_yoctoseconds t)
-  | TdStr t d h m s f fmt =>
+  | TdStr t d h m s f text =>
       let '(d', h', m', s', f') := td_str_parts t in
-      fmt && (d =? d') && (h =? h') && (m =? m') && (s =? s') && (f =? f')
+      list_eqb text (render_td d' h' m' s' f') && (d =? d') && (h =? h') && (m =? m') && (s =? s') && (f =? f')
   | DtFields t f tz => tz && f9_eqb f (model_fields t)
   | DtFromFields f out =>
       let '(y, mo, d, h, mi, s, us, fs, ys) := f in
       res_eqb Z.eqb out (dt_of_fields y mo d h mi s us fs ys)
   | DtRepr t out => res_eqb Z.eqb out (Ok t)
-  | DtStr t f fmt => fmt && f9_eqb f (model_fields t)
+  | DtStr t f text =>
+      let '(y, mo, d, h, mi, s, us, fs, ys) := model_fields t in
+      list_eqb text (render_dt y mo d h mi s us fs ys) && f9_eqb f (model_fields t)
   | Ordinal _ _ _ _ => c14_spec_ok c
   end.
